@@ -28,6 +28,12 @@ Proofs/ChunkSizes.vos Proofs/ChunkSizes.vok Proofs/ChunkSizes.required_vos: Proo
 Proofs/CoreCons.vo Proofs/CoreCons.glob Proofs/CoreCons.v.beautified Proofs/CoreCons.required_vo: Proofs/CoreCons.v Lib/NumOps.vo Gen/GenProto.vo Model/Core.vo Spec/ProtoSpec.vo
 Proofs/CoreCons.vio: Proofs/CoreCons.v Lib/NumOps.vio Gen/GenProto.vio Model/Core.vio Spec/ProtoSpec.vio
 Proofs/CoreCons.vos Proofs/CoreCons.vok Proofs/CoreCons.required_vos: Proofs/CoreCons.v Lib/NumOps.vos Gen/GenProto.vos Model/Core.vos Spec/ProtoSpec.vos
+Proofs/CoreResult.vo Proofs/CoreResult.glob Proofs/CoreResult.v.beautified Proofs/CoreResult.required_vo: Proofs/CoreResult.v Lib/NumOps.vo Gen/GenProto.vo Model/Core.vo Spec/ProtoSpec.vo Proofs/CoreCons.vo
+Proofs/CoreResult.vio: Proofs/CoreResult.v Lib/NumOps.vio Gen/GenProto.vio Model/Core.vio Spec/ProtoSpec.vio Proofs/CoreCons.vio
+Proofs/CoreResult.vos Proofs/CoreResult.vok Proofs/CoreResult.required_vos: Proofs/CoreResult.v Lib/NumOps.vos Gen/GenProto.vos Model/Core.vos Spec/ProtoSpec.vos Proofs/CoreCons.vos
+Proofs/SortRecovers.vo Proofs/SortRecovers.glob Proofs/SortRecovers.v.beautified Proofs/SortRecovers.required_vo: Proofs/SortRecovers.v 
+Proofs/SortRecovers.vio: Proofs/SortRecovers.v 
+Proofs/SortRecovers.vos Proofs/SortRecovers.vok Proofs/SortRecovers.required_vos: Proofs/SortRecovers.v 
 Props/C14.vo Props/C14.glob Props/C14.v.beautified Props/C14.required_vo: Props/C14.v Lib/NumOps.vo Gen/GenChunk.vo Model/Chunk.vo Spec/ChunkSpec.vo Proofs/ChunkPartition.vo Proofs/ChunkSizes.vo
 Props/C14.vio: Props/C14.v Lib/NumOps.vio Gen/GenChunk.vio Model/Chunk.vio Spec/ChunkSpec.vio Proofs/ChunkPartition.vio Proofs/ChunkSizes.vio
 Props/C14.vos Props/C14.vok Props/C14.required_vos: Props/C14.v Lib/NumOps.vos Gen/GenChunk.vos Model/Chunk.vos Spec/ChunkSpec.vos Proofs/ChunkPartition.vos Proofs/ChunkSizes.vos
